@@ -628,9 +628,25 @@ pub fn run_c05(tier: Tier) -> i32 {
         }
     }
     rep.sections.insert("sessions".into(), json!({"total": n_cases, "lines": ls.len()}));
+    // the preamble clause at the level of the real Client: sessions dialled after a push (fresh child process per history;
+    // R/r/q = request against a scripted TLS server running scheme B / C / B retyped, Z = client built with a custom scheme)
+    {
+        let hists: Vec<&str> = if thorough { vec!["R", "RR", "Rr", "RrR", "ZR", "ZRR", "ZRr", "Zd", "ZdR", "TRR", "Rq", "RqR"] } else { vec!["RR", "Rr", "ZRR", "ZRr", "ZdR", "TRR"] };
+        for r in crate::props::c19::client_preambles(&hists) {
+            match r {
+                Err(e) => rep.machinery(format!("client-level preamble check: {e}")),
+                Ok((h, step, md5, pad, want)) => {
+                    rep.case(Some(&format!("client preamble {h} step {step}")));
+                    if pad != want {
+                        rep.violation("C05:preamble-not-shaped-by-scheme-in-force", &format!("history {h} step {step}: the real Client dialled a session that announces the scheme with md5 {md5} (line 0 prescribes {want} bytes of preamble padding); its preamble carries {pad}"), json!({"engine": "BX-child", "history": h, "step": step}));
+                    }
+                }
+            }
+        }
+    }
     let cap = Duration::from_secs(if thorough { 900 } else { 40 });
     run_items(&mut rep, "C05", tier, c05_items(tier), DxOpts { time_cap: cap, det_replays: 8, max_violations: 3, vacuity_check: true });
-    rep.finish("IX: every scheme line of <=2 (thorough 3) entries over 12 entry forms x stop x draw policy {min,max,min+1} x 10 payload sizes per packet (+ every line of 3..4 (thorough 5) entries over the reduced alphabet {c, 7, 8, 30, 100-400}), write lengths of every flush-delimited batch checked by the reference acceptor for its line; preamble for every line 0; DX: 2-3 concurrent writers on a fresh session with <= B pre-emptions (wire order vs packet index); non-trivial = distinct case with an actually shaped packet / trace with >= 1 deviation")
+    rep.finish("IX: every scheme line of <=2 (thorough 3) entries over 12 entry forms x stop x draw policy {min,max,min+1} x 10 payload sizes per packet (+ every line of 3..4 (thorough 5) entries over the reduced alphabet {c, 7, 8, 30, 100-400}), write lengths of every flush-delimited batch checked by the reference acceptor for its line; preamble for every line 0, and for sessions the real Client dials after a push (child processes against a scripted TLS server); DX: 2-3 concurrent writers on a fresh session with <= B pre-emptions (wire order vs packet index); non-trivial = distinct case with an actually shaped packet / trace with >= 1 deviation")
 }
 
 pub fn replay_c05(file: &str) -> i32 {
